@@ -1267,3 +1267,231 @@ func genStatEdges(r *rand.Rand, i int) Scenario {
 	sc.Ops = append(sc.Ops, Op{Op: "stats_merge", Seg: 2, Seg2: 3, Field: "_id"}, Op{Op: "stats_merge", Seg: 3, Seg2: 4, Field: "b"})
 	return sc
 }
+
+// midsize: the range between the small random batches and the few structured big ones - 200..900 documents spread
+// over 3..6 segments, 20..60 fields of which a document carries a handful, terms of 100..4000 bytes next to short
+// ones, frequencies up to several thousand, stored values of 5..60 KB (runs and incompressible bytes), doc values;
+// built in random chunk modes, persisted/loaded, merged with deletions, merged again; observed (C01, C02, C04, C06, C07, C16)
+func genMidsize(r *rand.Rand, i int) Scenario {
+	nf := 20 + r.Intn(41)
+	fields := make([]string, nf)
+	dvf := map[string]bool{}
+	for k := range fields {
+		fields[k] = fmt.Sprintf("m%02d", k)
+		if k%5 == 0 {
+			dvf[fields[k]] = true
+		}
+	}
+	vocab := map[string][][]byte{}
+	for _, f := range fields {
+		n := 5 + r.Intn(45)
+		for k := 0; k < n; k++ {
+			var t []byte
+			switch r.Intn(12) {
+			case 0: // a long term
+				l := 100 + r.Intn(3900)
+				t = make([]byte, l)
+				for x := range t {
+					t[x] = byte('a' + (x*7+k)%23)
+				}
+			case 1:
+				t = []byte{}
+			default:
+				t = []byte(fmt.Sprintf("%s-%d", f[1:], k))
+			}
+			if dvf[f] {
+				for x := range t {
+					if t[x] == 0xff {
+						t[x] = 'z'
+					}
+				}
+			}
+			dup := false
+			for _, o := range vocab[f] {
+				dup = dup || string(o) == string(t)
+			}
+			if !dup {
+				vocab[f] = append(vocab[f], t)
+			}
+		}
+	}
+	total := 200 + r.Intn(701)
+	nseg := 3 + r.Intn(4)
+	sizes := make([]int, nseg)
+	left := total
+	for k := 0; k < nseg-1; k++ {
+		sizes[k] = 1 + r.Intn(2*left/(nseg-k))
+		if sizes[k] > left-(nseg-1-k) {
+			sizes[k] = left - (nseg - 1 - k)
+		}
+		left -= sizes[k]
+	}
+	sizes[nseg-1] = left
+	sc := Scenario{Name: fmt.Sprintf("midsize-%d", i), NormKind: "code", Universe: append([]string{"_id"}, fields...), Tags: []string{"midsize"}}
+	id := 0
+	for sgi := 0; sgi < nseg; sgi++ {
+		b := make(Batch, sizes[sgi])
+		for d := range b {
+			ids := []byte(fmt.Sprintf("z%05d", id))
+			id++
+			doc := Doc{{Name: "_id", Len: 1, Stored: true, Value: B(ids), Terms: []TermOcc{{Term: B(ids), Freq: 1, Locs: []Loc{}}}}}
+			used := map[string]bool{}
+			for k := 0; k < 2+r.Intn(4); k++ {
+				f := fields[r.Intn(nf)]
+				if used[f] {
+					continue
+				}
+				used[f] = true
+				fi := FieldInst{Name: f, DV: dvf[f], Value: Bytes{}, Terms: []TermOcc{}}
+				seen := map[int]bool{}
+				for x := 0; x < 1+r.Intn(4); x++ {
+					ti := r.Intn(len(vocab[f]))
+					if seen[ti] {
+						continue
+					}
+					seen[ti] = true
+					fr := 1 + r.Intn(3)
+					if r.Intn(15) == 0 {
+						fr = 64 * (1 + r.Intn(80))
+					}
+					occ := TermOcc{Term: B(vocab[f][ti]), Freq: fr, Locs: []Loc{}}
+					for l := 0; l < r.Intn(3) && l < fr; l++ {
+						occ.Locs = append(occ.Locs, Loc{Field: "", Pos: 1 + r.Intn(5000), Start: r.Intn(70000), End: 70000 + r.Intn(100)})
+					}
+					fi.Terms = append(fi.Terms, occ)
+					fi.Len += fr
+				}
+				if r.Intn(10) == 0 {
+					fi.Stored = true
+					n := 5000 + r.Intn(55000)
+					if r.Intn(2) == 0 {
+						fi.Value = PrngBlob(100000*i+id, n)
+					} else {
+						v := make(Bytes, n)
+						for x := range v {
+							v[x] = 'k' + id%7
+						}
+						fi.Value = v
+					}
+				} else if r.Intn(4) == 0 {
+					fi.Stored = true
+					fi.Value = B([]byte(fmt.Sprintf("v-%d-%s", id, f)))
+				}
+				doc = append(doc, fi)
+			}
+			b[d] = doc
+		}
+		sc.Batches = append(sc.Batches, b)
+	}
+	in := []int{}
+	drops := []DropSpec{}
+	for sgi := 0; sgi < nseg; sgi++ {
+		sc.Ops = append(sc.Ops, Op{Op: "build", Seg: sgi + 1, Batch: sgi, Mode: pickMode(r)})
+		h := sgi + 1
+		if sgi%2 == 1 {
+			sc.Ops = append(sc.Ops, Op{Op: "persist", Seg: h, File: 20 + sgi}, Op{Op: "load", File: 20 + sgi, Seg: 20 + sgi, Backing: []string{"mem", "file"}[sgi%4/2]})
+			h = 20 + sgi
+		}
+		in = append(in, h)
+		drops = append(drops, randDrops(r, sizes[sgi]))
+	}
+	sc.Ops = append(sc.Ops, Op{Op: "merge", File: 40, In: in, Drops: drops, Mode: 0, Buf: []int{64, 4096, 0}[i%3]},
+		Op{Op: "load", File: 40, Seg: 40, Backing: []string{"mem", "file"}[i%2]},
+		Op{Op: "observe", Seg: 40, Level: "light"},
+		Op{Op: "merge", File: 41, In: []int{40, in[0]}, Drops: []DropSpec{{Kind: "nil"}, {Kind: "nil"}}, Mode: pickMode(r), Buf: 4096},
+		Op{Op: "load", File: 41, Seg: 41, Backing: "mem"}, Op{Op: "observe", Seg: 41, Level: "light"},
+		Op{Op: "observe", Seg: in[len(in)-1], Level: "full"})
+	return sc
+}
+
+// bitmap_edges: terms whose serialised roaring bitmaps have exact sizes around 4096 bytes (an array container of
+// 2039/2040/2041 scattered documents: 16 + 2n bytes) and around the array/bitmap container switch (4095/4096/4097
+// documents in one 65 536-block); a field occurring twice per document so that a term has twice as many occurrences
+// as documents (600 documents, 1200 occurrences: one chunk for the reader); dictionaries enumerated on the built,
+// the loaded and a merged segment (C08, C01, C05)
+func genBitmapEdges(r *rand.Rand, i int) Scenario {
+	cards := [][3]int{{2040, 2039, 2041}, {4096, 4095, 4097}, {2040, 4096, 1021}}[i%3]
+	n := 8400
+	if i%2 == 1 {
+		n = 9000
+	}
+	b := make(Batch, n)
+	for d := 0; d < n; d++ {
+		terms := []TermOcc{}
+		for k, c := range cards {
+			// scattered (non-adjacent) members: every second document from a term-specific start
+			if d%2 == k%2 && d/2 < c {
+				terms = append(terms, TermOcc{Term: B([]byte(fmt.Sprintf("e%d", k))), Freq: 1 + d%2, Locs: []Loc{}})
+			}
+		}
+		doc := Doc{}
+		if len(terms) > 0 {
+			l := 0
+			for _, t := range terms {
+				l += t.Freq
+			}
+			doc = append(doc, FieldInst{Name: "a", Len: l, Value: Bytes{}, Terms: terms})
+		}
+		if d%14 == 0 {
+			// the same field name twice in one document, the same term in both instances (spread over the whole segment)
+			doc = append(doc, FieldInst{Name: "rep", Len: 1, Value: Bytes{}, Terms: []TermOcc{{Term: B([]byte("x")), Freq: 1, Locs: []Loc{}}}},
+				FieldInst{Name: "rep", Len: 2, Value: Bytes{}, Terms: []TermOcc{{Term: B([]byte("x")), Freq: 2, Locs: []Loc{{Field: "", Pos: 1, Start: d, End: d + 1}}}}})
+		}
+		b[d] = doc
+	}
+	sc := Scenario{Name: fmt.Sprintf("bitmap_edges-%d", i), NormKind: "code", Universe: []string{"_id", "a", "rep"}, Batches: []Batch{b}, Tags: []string{"bitmap_edges"}}
+	sc.Ops = append(sc.Ops, Op{Op: "build", Seg: 1, Batch: 0, Mode: 0}, Op{Op: "persist", Seg: 1, File: 1},
+		Op{Op: "load", File: 1, Seg: 2, Backing: []string{"mem", "file"}[i%2]},
+		Op{Op: "merge", File: 2, In: []int{2}, Drops: []DropSpec{{Kind: "set", Docs: []int{n - 1}}}, Mode: 0, Buf: 4096}, Op{Op: "load", File: 2, Seg: 3, Backing: "mem"})
+	for _, seg := range []int{1, 2, 3} {
+		sc.Ops = append(sc.Ops, Op{Op: "dict", Seg: seg, Field: "a"}, Op{Op: "dict", Seg: seg, Field: "rep"})
+		for k := range cards {
+			pl, it := 10*seg+k, 100+10*seg+k
+			sc.Ops = append(sc.Ops, Op{Op: "pl_open", Seg: seg, Field: "a", Term: B([]byte(fmt.Sprintf("e%d", k))), Pl: pl}, Op{Op: "pl_count", Pl: pl},
+				Op{Op: "it_open", Pl: pl, It: it, Freq: true, Norm: true, Locs: true}, Op{Op: "it_next", It: it}, Op{Op: "it_adv", It: it, D: 3000}, Op{Op: "it_next", It: it})
+		}
+		pl, it := 10*seg+5, 100+10*seg+5
+		sc.Ops = append(sc.Ops, Op{Op: "pl_open", Seg: seg, Field: "rep", Term: B([]byte("x")), Pl: pl}, Op{Op: "it_open", Pl: pl, It: it, Freq: true, Norm: true, Locs: true},
+			Op{Op: "it_next", It: it}, Op{Op: "it_adv", It: it, D: n/2 - 30}, Op{Op: "it_next", It: it}, Op{Op: "it_next", It: it}, Op{Op: "it_next", It: it}, Op{Op: "it_next", It: it},
+			Op{Op: "it_adv", It: it, D: n - 100}, Op{Op: "it_next", It: it}, Op{Op: "it_next", It: it})
+	}
+	return sc
+}
+
+// conc_big: goroutines that compress and decompress LARGE chunks at the same time - builds whose stored chunk holds
+// more than a megabyte of incompressible bytes, readers of a stored block that is several hundred kilobytes when
+// compressed - against the bytes of cold sequential builds and the documents' own values (C14, C09)
+func genConcBig(r *rand.Rand, i int) Scenario {
+	mk := func(n, size, seed int, tag string) Batch {
+		b := make(Batch, n)
+		for d := 0; d < n; d++ {
+			id := []byte(fmt.Sprintf("%s%02d", tag, d))
+			b[d] = Doc{{Name: "_id", Len: 1, Stored: true, Value: B(id), Terms: []TermOcc{{Term: B(id), Freq: 1, Locs: []Loc{}}}},
+				{Name: "blob", Len: 1, Stored: true, Value: PrngBlob(seed+d, size+d*100), Terms: []TermOcc{{Term: B([]byte("t")), Freq: 1, Locs: []Loc{}}}}}
+		}
+		return b
+	}
+	a := mk(12, 40000, 7000+100*i, "a")
+	bb := mk(3, 700<<10, 8000+100*i, "b")
+	cc := mk(2, 600<<10, 9000+100*i, "c")
+	sc := Scenario{Name: fmt.Sprintf("conc_big-%d", i), NormKind: "code", Universe: []string{"_id", "blob"}, Batches: []Batch{a, bb, cc}, Tags: []string{"conc_big"}}
+	sc.Ops = append(sc.Ops, Op{Op: "watchdog", Watchdog: 20000}, Op{Op: "build", Seg: 1, Batch: 0, Mode: 0, Cold: true}, Op{Op: "build", Seg: 2, Batch: 1, Mode: 0, Cold: true},
+		Op{Op: "build", Seg: 3, Batch: 2, Mode: 0, Cold: true},
+		Op{Op: "persist", Seg: 1, File: 1}, Op{Op: "load", File: 1, Seg: 4, Backing: []string{"mem", "file"}[i%2]},
+		Op{Op: "persist", Seg: 2, File: 2}, Op{Op: "load", File: 2, Seg: 5, Backing: "mem"})
+	visits := func(seg, n int) []Op {
+		ops := []Op{}
+		for k := 0; k < 10; k++ {
+			ops = append(ops, Op{Op: "stored", Seg: seg, N: r.Intn(n)})
+		}
+		return ops
+	}
+	groups := [][]Op{
+		{{Op: "build", Seg: 101, Batch: 1, Mode: 0}, {Op: "build", Seg: 102, Batch: 1, Mode: 0}, {Op: "build", Seg: 103, Batch: 2, Mode: 0}},
+		{{Op: "build", Seg: 111, Batch: 2, Mode: 0}, {Op: "build", Seg: 112, Batch: 1, Mode: 0}, {Op: "build", Seg: 113, Batch: 2, Mode: 0}},
+		{{Op: "build", Seg: 121, Batch: 1, Mode: 0}, {Op: "build", Seg: 122, Batch: 2, Mode: 0}},
+		visits(4, 12), visits(1, 12), visits(5, 3), visits(4, 12),
+	}
+	sc.Ops = append(sc.Ops, Op{Op: "par", Groups: groups})
+	return sc
+}
